@@ -47,6 +47,16 @@ func verifPickMembers(t string, max int) []string {
 	return l
 }
 
+// verifOneAction: all rules have action allow (cheaper runs with two groups)
+var verifOneAction = false
+
+func verifPickAction(rt string) string {
+	if verifOneAction {
+		return "allow"
+	}
+	return vf.Pick(rt+".action", []string{"allow", "drop"})
+}
+
 var verifGroupList = false
 
 // verifOnlyGroups: every rule source is an address-group (cheaper runs with two groups)
@@ -59,7 +69,7 @@ func verifMkVsys(t string, n int, grpNames []string, maxMembers int, svcPort str
 		rt := t + strconv.Itoa(i)
 		r := &panRule{
 			Name:        rulePrefix + strconv.Itoa(i+1),
-			Action:      vf.Pick(rt+".action", []string{"allow", "drop"}),
+			Action:      verifPickAction(rt),
 			From:        []string{"any"},
 			To:          []string{"any"},
 			Application: []string{"any"},
@@ -534,6 +544,7 @@ func VerifPAN() {
 	verifSrcMax, _ = strconv.Atoi(vf.Param("srcmax", "2"))
 	verifGroupList = vf.Param("glist", "0") == "1"
 	verifOnlyGroups = vf.Param("onlygroups", "0") == "1"
+	verifOneAction = vf.Param("oneaction", "0") == "1"
 	vf.Assumption("PAN-OS: one vsys, rules with symbolic action and a source that is a sorted list of 1..2 of 3 addresses or an address-group (1.." + strconv.Itoa(MM) + " members); other rule attributes fixed; addresses and one service are defined on both sides, the service port differs on the device or not")
 	vf.Assumption("PAN-OS model: set creates or extends, edit replaces, delete of a rule/member/object must find it, delete of an address or address-group is rejected while referenced, 'move before dst' needs dst, rules and groups may only refer to existing addresses/groups/services")
 	vf.Assumption("encoding/xml stub: values with symbols are marshalled to blob tokens and merged back by field name; Marshal injective, Unmarshal(Marshal(v)) == v")
